@@ -138,7 +138,7 @@ def gen_wide_job(rng, arch):
             {"name": "mt", "loc": T, "size": 0x100, "ins": [{"k": "section", "name": "t", "al": 0}]}]
     return {"arch": arch, "objects": [obj], "lay": {"on": True, "entry": "", "mems": mems},
             "opt": {"partial": False, "entry": "", "extra": []}, "ctl": ctl,
-            "aim": {"type": rtype, "d": (S - code) if rtype == "rel32" else S, "line": line}}
+            "aim": {"type": rtype, "d": d if rtype == "rel32" else S, "line": line}}
 
 
 def wide_records(job, jid):
